@@ -227,6 +227,32 @@ def last_node(res, nid, st, pred):
     return ns[-1] if ns else None
 
 
+def list_removals(node, field):
+    """removals from the list self.<field> performed by a statement node: [('pop', index expr | None) | ('remove', arg) | ('popleft', None) | ('del', index expr)]
+    -- `self.f.pop(i)`, `self.f.remove(x)`, `self.f.popleft()`, `del self.f[i]` are one vocabulary"""
+    out = []
+    a = node.ast
+    if node.kind != 'stmt' or a is None:
+        return out
+    if isinstance(a, ast.Delete):
+        for t in a.targets:
+            if isinstance(t, ast.Subscript) and is_self_attr(t.value, field) and not isinstance(t.slice, ast.Slice):
+                out.append(('del', t.slice))
+    for x in ast.walk(a):
+        if isinstance(x, ast.Call) and isinstance(x.func, ast.Attribute) and is_self_attr(x.func.value, field):
+            if x.func.attr == 'pop':
+                out.append(('pop', x.args[0] if x.args else None))
+            elif x.func.attr == 'remove':
+                out.append(('remove', x.args[0] if x.args else None))
+            elif x.func.attr == 'popleft':
+                out.append(('popleft', None))
+    return out
+
+
+def is_head_index(e):
+    return isinstance(e, ast.Constant) and e.value == 0 and not isinstance(e.value, bool)
+
+
 def canon_text(e, frame, keep=()):
     """spelling of an expression after substitution of single-definition locals, aliases and parameters of inlined frames"""
     from .norm import FrameEnv, subst
